@@ -57,29 +57,7 @@ func runC07(p *Program, r *Result) {
 
 	// ---- R07.3
 	r.Rule("R07.3", "the bufio over-read is handed back in front of the payload, exactly once", 2)
-	{
-		nA, nB := 0, 0
-		for _, ret := range succ {
-			facts := ptb.FactsAt(ret.Block())
-			pay := short(ptb.Term(resultsOf(ret)[1]).String())
-			_, same := hasFactShort(facts, "bufio.NewReader(P1) == P1")
-			_, diff := hasFactShort(facts, "bufio.NewReader(P1) != P1")
-			switch {
-			case same && pay == "bufio.NewReader(P1)":
-				nA++
-				r.OK(parse.String(), "payload:same-reader", r.pos(ret), "input already is the bufio.Reader: returned as is (no duplication of buffered bytes)")
-			case diff && pay == specRecipe(r, "format.Parse.payload"):
-				nB++
-				_, okErr := hasFactShort(facts, "(*bufio.Reader).Peek(bufio.NewReader(P1), (*bufio.Reader).Buffered(bufio.NewReader(P1))).1 == nil")
-				r.Check(okErr, parse.String(), "payload:multireader", r.pos(ret), pay, "the Peek error is not checked")
-			default:
-				r.Bad(parse.String(), "payload#"+itoa(retIndex(parse, ret)), r.pos(ret), "payload reader is "+pay+" under facts ["+short(factStrings(facts))+"]: buffered bytes would be lost or duplicated")
-			}
-		}
-		if nA != 1 || nB != 1 {
-			r.Bad(parse.String(), "payload:cases", "", "expected one return for rr == input and one for the MultiReader hand-back")
-		}
-	}
+	checkPayloadHandBack(p, r, parse, succ, ptb)
 
 	// ---- R07.4
 	r.Rule("R07.4", "rejected input yields neither a header nor a payload reader", 10)
@@ -332,4 +310,30 @@ func checkCanonicalParse(p *Program, r *Result, parse, rs, ivs, dec *ssa.Functio
 	checkBase64Guards(p, r, []*ssa.Function{dec})
 
 	return succ, ptb
+}
+
+// checkPayloadHandBack is rule R07.3 (shared with C01 and C12): the payload reader Parse returns
+// is the bufio.Reader itself iff that is the input, otherwise the buffered bytes followed by the input.
+func checkPayloadHandBack(p *Program, r *Result, parse *ssa.Function, succ []*ssa.Return, ptb *TB) {
+	nA, nB := 0, 0
+	for _, ret := range succ {
+		facts := ptb.FactsAt(ret.Block())
+		pay := short(ptb.Term(resultsOf(ret)[1]).String())
+		_, same := hasFactShort(facts, "bufio.NewReader(P1) == P1")
+		_, diff := hasFactShort(facts, "bufio.NewReader(P1) != P1")
+		switch {
+		case same && pay == "bufio.NewReader(P1)":
+			nA++
+			r.OK(parse.String(), "payload:same-reader", r.pos(ret), "input already is the bufio.Reader: returned as is (no duplication of buffered bytes)")
+		case diff && pay == specRecipe(r, "format.Parse.payload"):
+			nB++
+			_, okErr := hasFactShort(facts, "(*bufio.Reader).Peek(bufio.NewReader(P1), (*bufio.Reader).Buffered(bufio.NewReader(P1))).1 == nil")
+			r.Check(okErr, parse.String(), "payload:multireader", r.pos(ret), pay, "the Peek error is not checked")
+		default:
+			r.Bad(parse.String(), "payload#"+itoa(retIndex(parse, ret)), r.pos(ret), "payload reader is "+pay+" under facts ["+short(factStrings(facts))+"]: buffered bytes would be lost or duplicated")
+		}
+	}
+	if nA != 1 || nB != 1 {
+		r.Bad(parse.String(), "payload:cases", "", "expected one return for rr == input and one for the MultiReader hand-back")
+	}
 }
